@@ -433,7 +433,7 @@ pub fn harnesses() -> Vec<H> {
     vec![
         H { name: "slice_roundtrip", props: &["C01", "C02", "C20", "C10"], nargs: 10, pre: pre_slice_rt, doms: doms_slice_rt, run: run_slice_rt, panic_ok: false,
             bound: "SliceRegion<MirrorRegion<u8>>: two items of length 0..3, element bytes arbitrary (native: {0,1,255}), four input forms, optional reserve_items/reserve_regions in between; twin fed the canonical form", kani: false },
-        H { name: "slice_index_optimized", props: &["C01", "C02", "C03", "C05", "C20"], nargs: 7, pre: pre_sio, doms: doms_sio, run: run_sio, panic_ok: false,
+        H { name: "slice_index_optimized", props: &["C01", "C02", "C03", "C05"], nargs: 7, pre: pre_sio, doms: doms_sio, run: run_sio, panic_ok: false,
             bound: "SliceRegion<MirrorRegion<usize>, IndexOptimized>: five inner indices over a 10-value alphabet {0..7, u32::MAX, u32::MAX+1} split into two items at any point (IndexContainer::extend inside one push), three input forms; both items re-read after each push", kani: false },
         H { name: "slice_nested", props: &["C01", "C02"], nargs: 7, pre: pre_nested, doms: doms_nested, run: run_nested, panic_ok: false,
             bound: "SliceRegion<SliceRegion<MirrorRegion<u8>>>: one earlier item plus an outer item of 0..2 inner vectors of length 0..2, bytes arbitrary", kani: false },
